@@ -1,6 +1,9 @@
 use std::{marker::PhantomData, sync::Arc};
 
+#[cfg(not(anydb_verif))]
 use parking_lot::RwLock;
+#[cfg(anydb_verif)]
+use rawdb::verif::locks::RwLock;
 
 mod any_vec;
 mod readable;
